@@ -55,7 +55,7 @@ PROPS = {
     ),
 }
 PROBES = {'C04': ['ghost_particles_present', 'periodic_domain', 'two_arrays_different_steppers', 'update_nnps_false', 'second_equation_set',
-                  'py_stage_hook', 'py_hook_injects_particles', 'same_stepper_class_different_parameters', 'py_hook_reads_other_array', 'h_grows_during_step', 'several_steps', 'noncontiguous_times', 't0_nonzero', 'sim_schedule', 'shipped_stepper', 'history_compared']}
+                  'py_stage_hook', 'py_hook_injects_particles', 'same_stepper_class_different_parameters', 'py_hook_reads_other_array', 'h_grows_during_step', 'empty_array', 'several_steps', 'noncontiguous_times', 't0_nonzero', 'sim_schedule', 'shipped_stepper', 'history_compared']}
 
 
 def needs_isolation(sc):
@@ -116,6 +116,9 @@ def _scenario(t, pr, sim_override=None):
         n = t.choice([2, 4, 7, 12])
         ng = t.choice([0, 0, 2, 3])
         arrays.append(dict(n=n, nghost=ng, seed=t.int(1, 1 << 30), h=t.choice([0.08, 0.12])))
+    if pr['narr'] == 2 and pr['stepper'] in ('trace', 'trace_same') and t.bool(0.2):
+        # an array that holds no particle at all (an outlet before anything has reached it)
+        arrays[t.int(0, 1)].update(n=0, nghost=0)
     steps = []
     t0 = t.choice([0.0, 0.0, 0.5, 2.0])
     tt = t0
@@ -166,7 +169,7 @@ def _make_setup(sc):
     for a, name in enumerate(names):
         spec = sc['arrays'][a]
         n, ng = int(spec['n']), int(spec['nghost'])
-        if not (1 <= n <= 40 and 0 <= ng <= 10):
+        if not (0 <= n <= 40 and 0 <= ng <= 10) or (n == 0 and (ng > 0 or narr < 2 or not st.startswith('trace'))):
             raise InvalidScenario('sizes')
         rng = np.random.RandomState(int(spec['seed']) % (1 << 31))
         ntot = n + ng
@@ -329,7 +332,7 @@ def execute(sc, prop):
     if periodic:
         for pa in r_arrays:
             xs = pa.get('x', only_real_particles=False)
-            if xs.min() < 0 or xs.max() > 1.3:
+            if len(xs) and (xs.min() < 0 or xs.max() > 1.3):
                 raise InvalidScenario('outside the periodic box')
     try:
         r_evals, r_nnps = _compile(r_arrays, r_integ, r_eqs, dim, periodic)
@@ -413,6 +416,8 @@ def execute(sc, prop):
         probe('t0_nonzero')
     if periodic:
         probe('periodic_domain')
+    if any(int(a['n']) == 0 for a in sc['arrays']):
+        probe('empty_array')
     if int(sc['narr']) > 1:
         probe('two_arrays_different_steppers')
     if any(e[0] == 'acc' and not e[2] for e in r_log):
